@@ -181,6 +181,7 @@ PROPS = {    "C01": {
                              ("rename", "rename", {"runs": 2, "names": "every ordered pair of the 8 names"}),
                              ("retention", "retention", {"runs": 2, "retention_days": "0, 1, 2", "file_age": "0h, 23h, 25h, 47h, 49h (aged with os.Chtimes)", "names": "a, ab, 'a b'"}),
                              ("today", "today", {"runs": "none | yesterday | today | both", "today_mode": "on"}),
+                             ("editopen", "editopen", {"runs": 1, "sequence": "open, write, manual update by another store instance, [write], [close+compaction]", "names": "a, ab, 'a b'"}),
                              ("bigrecord", "bigrecord", {"runs": 1, "writes": 2, "record_size": "one of the two records carries a string of symbolic length <= 1000 or 66000..100000 bytes", "closed": "with / without compaction"}))
         ],
         "assumptions": ["file-system model (DESIGN 3.2); instants are concrete representatives (offset classes), file names therefore concrete: filepath.Glob / regexp / sort are evaluated exactly on them",
